@@ -171,7 +171,7 @@ def one_run(params):
                         d = mserver.build_answer(q2, body, enc)
                     except ValueError:
                         return
-                planted[f] = how
+                planted[f] = (how, bad_id if how == 0 else None)
                 out["stats"]["planted_unmatched"] += 1
             if d is None:
                 return
@@ -219,9 +219,18 @@ def one_run(params):
         # tun silence
         for ev in k.log:
             if ev[1] == "tun_write" and ev[2] == "cli0" and bytes(ev[3]["data"]) in planted:
+                how, bad_id = planted[bytes(ev[3]["data"])]
+                if how == 0:
+                    # the invented id was unused when the answer was built; the client may have used it for a query it
+                    # sent while the answer was in flight (ids advance by a fixed step: 1 in 65536) - then the answer matches
+                    later = [struct.unpack_from(">H", e[3]["data"], 0)[0] for e in k.log
+                             if e[1] == "send" and e[2] == "cli0" and e[0] <= ev[0] and len(e[3]["data"]) >= 2][-12:]
+                    if bad_id in later:
+                        out["stats"]["planted_id_became_current"] = out["stats"].get("planted_id_became_current", 0) + 1
+                        continue
                 out["violations"].append(("C06:unmatched-reply-delivered",
                                           "a packet planted in an answer that matches none of the client's recent queries (%s) was written to the client's tun"
-                                          % ("wrong id" if planted[bytes(ev[3]["data"])] == 0 else "wrong first character"), dict(wit, time_us=ev[0])))
+                                          % ("wrong id" if how == 0 else "wrong first character"), dict(wit, time_us=ev[0])))
                 break
         if state["hostile"] or planted:
             for st in (state["steps"] or {"inject"}):
